@@ -270,6 +270,19 @@ def r6_no_inplace_on_model_values(ctx):
         ctx.ok("C13.R6", fn, fn.node, f"locals aliasing model values {names}: never written in place", construct=f"def {fn.name}")
 
 
+def r7_argument_views(ctx):
+    """'do not modify the data, table or settings objects passed in': `np.asarray(x)`, `torch.as_tensor(x)`, `x.values`, `x.reshape(..)` ...
+    return the caller's own buffer when it already has the right type; arithmetic done in place on such a view rewrites the input."""
+    from ._shared import inplace_on_argument_views
+    ctx.rule("C13.R7", "no in-place operation on a (possible) view of an argument (np.asarray / as_tensor / .values / .reshape ... of a parameter), package-wide", 1)
+    sites, holders = inplace_on_argument_views(ctx)
+    for fn, node, desc in sites:
+        ctx.violation("C13.R7", fn, node, desc + ": when the caller passes an array of that type, its own data is rewritten (a repeated call then gives another answer)")
+    for fn, names in holders:
+        ctx.ok("C13.R7", fn, fn.node, f"views of arguments {names}: never modified in place", construct=f"def {fn.name}")
+    ctx.ok("C13.R7", ("leaspy", "<package>"), None, f"{len(list(ctx.ix.iter_funcs()))} functions scanned", construct="package-wide scan")
+
+
 def _in_restoring_try(f, call) -> bool:
     for t in ast.walk(f.node):
         if isinstance(t, ast.Try) and t.finalbody:
@@ -288,6 +301,7 @@ def rules(ctx):
     r4_inputs(ctx, cg)
     r5_shared_defaults(ctx)
     r6_no_inplace_on_model_values(ctx)
+    r7_argument_views(ctx)
     ctx.trust("State.clone deep-copies (C01.R5); copy.deepcopy; joblib runs each job on its own state object")
     ctx.assume("receiver types follow the annotations / naming conventions listed in sa/effects.py (NAME_TYPES)")
 
@@ -297,6 +311,8 @@ PM = "src/leaspy/algo/personalize/mcmc.py"
 MC = "src/leaspy/models/mcmc_saem_compatible.py"
 SCM = "src/leaspy/algo/personalize/scipy_minimize.py"
 VARIANTS = [
+    V("ages-normalised-in-place", "src/leaspy/models/lme.py", "        ages_norm = (\n            np.array(timepoints).reshape(-1) - self.parameters[\"ages_mean\"]\n        ) / self.parameters[\"ages_std\"]\n",
+      "        ages_norm = np.asarray(timepoints, dtype=np.float64).reshape(-1)\n        ages_norm -= self.parameters[\"ages_mean\"]\n        ages_norm /= self.parameters[\"ages_std\"]\n", "C13.R7"),
     V("memoised-method", "src/leaspy/io/data/dataset.py", "    def to_pandas(self", "    @functools.lru_cache(maxsize=None)\n    def to_pandas(self", "C13.R5"),
     V("class-default-setdefault", SCM, "        self.format_convergence_issues = self.algo_parameters.get(", "        self.scipy_minimize_params.setdefault(\"tol\", 1e-6)\n        self.format_convergence_issues = self.algo_parameters.get(", "C13.R5"),
     V("class-default-nested-write", SCM, "        self.format_convergence_issues = self.algo_parameters.get(",
